@@ -191,6 +191,45 @@ impl Corpus {
     out
   }
 
+  /// P5: hand-written multi-module programs under compile-sim/shapes/<name>/ (one .sam file per
+  /// module, dots in the file name separate module name parts; ENTRY_POINTS lists the entry modules),
+  /// each exercising one compiler feature whose treatment depends on table orders
+  pub fn shapes(&self) -> Vec<Program> {
+    let dir = simcore::report::verif_root().join("sim").join("compile-sim").join("shapes");
+    let mut out = Vec::new();
+    let Ok(rd) = std::fs::read_dir(&dir) else { return out };
+    let mut dirs: Vec<_> = rd.flatten().map(|e| e.path()).filter(|p| p.is_dir()).collect();
+    dirs.sort();
+    for d in dirs {
+      let mut sources = BTreeMap::new();
+      let mut overrides = BTreeSet::new();
+      let mut files: Vec<_> = std::fs::read_dir(&d).into_iter().flatten().flatten().map(|e| e.path()).collect();
+      files.sort();
+      for f in files {
+        if f.extension().map(|e| e == "sam").unwrap_or(false) {
+          let m: ModName = f.file_stem().unwrap().to_str().unwrap().split('.').map(|s| s.to_string()).collect();
+          sources.insert(m.clone(), std::fs::read_to_string(&f).unwrap_or_default());
+          overrides.insert(m);
+        }
+      }
+      let entry_points: Vec<ModName> = std::fs::read_to_string(d.join("ENTRY_POINTS"))
+        .unwrap_or_default()
+        .lines()
+        .filter(|l| !l.trim().is_empty())
+        .map(|l| l.trim().split('.').map(|s| s.to_string()).collect())
+        .collect();
+      for (m, t) in &self.files {
+        if m[0] == "std" {
+          sources.entry(m.clone()).or_insert_with(|| t.clone());
+        }
+      }
+      if !entry_points.is_empty() {
+        out.push(Program { name: format!("shape {}", d.file_name().unwrap().to_string_lossy()), kind: ProgramKind::Synthetic, sources, entry_points, overrides });
+      }
+    }
+    out
+  }
+
   /// ill-typed programs whose diagnostics list names and span several modules
   pub fn p3(&self, rng: &mut Rng, k: usize) -> Program {
     if k % 4 == 3 {
@@ -444,6 +483,26 @@ impl Corpus {
       let tb = sources.get_mut(&mod_names[rb]).unwrap();
       *tb = format!("{rec_b}{tb}\nclass RecB(BP, BQ(RecA)) {{\n  method show(): Str = match this {{ BP -> \"B.P\", BQ(a) -> \"B.Q(\" :: a.show() :: \")\" }}\n}}\n\n");
     }
+    // structural twins: classes in different modules that are structurally equal (type
+    // deduplication merges them), wrappers around them, and a holder of one wrapper that is really
+    // allocated at run time (built in a non-tail-recursive method, so it cannot be optimised away)
+    let (ta, tb) = (n_modules - 1, (n_modules - 2) % n_modules);
+    let twins = ta != tb && rng.chance(3, 4);
+    if twins {
+      let k = rng.range(2, 9);
+      // asymmetric on half of the programs: the two holders then do not deduplicate with each other
+      let asym = rng.chance(1, 2);
+      let (extra_field, extra_arg) = if asym { (", val note: Str", ", \"n\"") } else { ("", "") };
+      let a = format!(
+        "class Vec2(val x: int, val y: int) {{\n  method dot(o: Vec2): int = this.x * o.x + this.y * o.y\n}}\n\nclass Segment(val start: Vec2, val end: Vec2) {{\n  method span(n: int): int = if n <= 0 {{ this.start.dot(this.end) }} else {{ this.span(n - 1) + this.end.x - this.start.y + {k} }}\n}}\n\nclass Path(val first: Segment, val hops: int{extra_field}) {{\n  method extend(n: int): Path = if n <= 0 {{ this }} else {{ Path.init(Segment.init(this.first.end, this.first.start), this.hops + 1{extra_arg}).extend(n - 1) }}\n  method show(): Str = Str.fromInt(this.first.span(3)) :: \"/\" :: Str.fromInt(this.hops)\n}}\n\n"
+      );
+      let b = format!(
+        "class Money(val units: int, val cents: int) {{\n  method plus(o: Money): int = this.units * o.units + this.cents * o.cents\n}}\n\nclass Transfer(val src: Money, val dst: Money) {{\n  method compound(n: int): int = if n <= 0 {{ this.src.plus(this.dst) }} else {{ this.compound(n - 1) + this.dst.units - this.src.cents + {} }}\n}}\n\nclass Ledger(val last: Transfer, val count: int) {{\n  method replay(n: int): Ledger = if n <= 0 {{ this }} else {{ Ledger.init(Transfer.init(this.last.dst, this.last.src), this.count + 1).replay(n - 1) }}\n  method show(): Str = Str.fromInt(this.last.compound(3)) :: \"/\" :: Str.fromInt(this.count)\n}}\n\n",
+        k + 1
+      );
+      sources.get_mut(&mod_names[ta]).unwrap().push_str(&a);
+      sources.get_mut(&mod_names[tb]).unwrap().push_str(&b);
+    }
     // main: call every function from here with literals; different literals for the same function
     let main: ModName = vec!["app".into(), "Main".into()];
     let mut t = String::new();
@@ -468,6 +527,9 @@ impl Corpus {
     if ra != rb {
       t.push_str(&format!("import {{ RecA }} from {};\nimport {{ RecB }} from {};\n", mod_names[ra].join("."), mod_names[rb].join(".")));
     }
+    if twins {
+      t.push_str(&format!("import {{ Vec2, Segment, Path }} from {};\nimport {{ Money, Transfer, Ledger }} from {};\n", mod_names[ta].join("."), mod_names[tb].join(".")));
+    }
     t.push_str("import { Box, Shape } from shared.Containers;\n\nclass Main {\n  function main(): unit = {\n");
     for (li, (_, cn)) in loop_classes.iter().enumerate() {
       t.push_str(&format!("    {cn}.run({});\n", li % 2));
@@ -477,6 +539,10 @@ impl Corpus {
     }
     for mi in 0..n_modules {
       t.push_str(&format!("    SameShape{mi}.run();\n"));
+    }
+    if twins {
+      t.push_str(&format!("    Process.println(Path.init(Segment.init(Vec2.init(1, 2), Vec2.init(3, 4)), 0{}).extend(3).show());\n", if sources[&mod_names[ta]].contains("val note: Str") { ", \"n\"" } else { "" }));
+      t.push_str("    Process.println(Ledger.init(Transfer.init(Money.init(5, 6), Money.init(7, 8)), 0).replay(4).show());\n");
     }
     if ra != rb {
       t.push_str("    Process.println(RecA.AY(RecB.BP()).show() :: \" \" :: RecB.BQ(RecA.AX()).show() :: \" \" :: RecA.AY(RecB.BQ(RecA.AZ(7))).show() :: \" \" :: RecA.AX().show() :: \" \" :: RecB.BP().show());\n");
@@ -499,7 +565,26 @@ impl Corpus {
     if let Some(x) = self.files.get(&tuples) {
       sources.insert(tuples, x.clone());
     }
-    Program { name: format!("synthetic well-typed #{k}"), kind: ProgramKind::Synthetic, sources, entry_points: vec![main], overrides }
+    let mut entry_points = vec![main];
+    if ra != rb && rng.chance(1, 2) {
+      for (e, first) in [("Second", "RecB"), ("Third", "RecA")].iter().take(rng.range(1, 2)) {
+        let m: ModName = vec!["app".into(), e.to_string()];
+        let body = if *first == "RecB" {
+          "    Process.println(RecB.BQ(RecA.AY(RecB.BP())).show());\n    Process.println(RecB.BP().show() :: RecA.AX().show());\n"
+        } else {
+          "    Process.println(RecA.AY(RecB.BQ(RecA.AX())).show());\n    Process.println(RecA.AZ(3).show() :: RecB.BP().show());\n"
+        };
+        let text = format!(
+          "import {{ RecA }} from {};\nimport {{ RecB }} from {};\n\nclass Main {{\n  function main(): unit = {{\n{body}  }}\n}}\n",
+          mod_names[ra].join("."),
+          mod_names[rb].join(".")
+        );
+        sources.insert(m.clone(), text);
+        overrides.insert(m.clone());
+        entry_points.push(m);
+      }
+    }
+    Program { name: format!("synthetic well-typed #{k}"), kind: ProgramKind::Synthetic, sources, entry_points, overrides }
   }
 
   fn p3_from_corpus(&self, rng: &mut Rng, k: usize) -> Program {
